@@ -8,7 +8,9 @@ COQ_PROPS = ['Props/C15.v']
 COQ_IMPORTS = ['Prims', 'CaseLib', 'Golomb', 'IntCodec', 'Search', 'Store', 'DtypeLen']
 RULE = ('all integer dtypes x lengths (valid, zero, negative, not whole bytes for endian types) x values at, just inside and just outside every range limit; floats with lengths other than 16/32/64; '
         'bool/8-bit-float lengths; tokens whose stated length disagrees with the value; invalid digits; windows beyond bytes/bitarray/BytesIO/file sources; through constructor keyword, name with length, '
-        'token string, property assignment (target must stay unchanged), pack, Dtype.build and Array element assignment. non-trivial = a rejected case; distinct by arguments')
+        'token string, property assignment (target must stay unchanged), pack, Dtype.build and Array element assignment; Arrays (plain and scaled dtypes, ints and floats) given the values of another '
+        'container - an Array with another scale / name / item length, a slice of an Array, list, tuple, generator, iterator, array.array - by slice assignment, extend, constructor, astype, item assignment, '
+        'append and insert: a value v is stored as v / scale exactly or refused with nothing changed. non-trivial = a rejected case; distinct by arguments')
 ASSUMPTIONS = ['CreationError is ValueError in this package (exceptions.py)']
 INTS = ['uint', 'int', 'uintbe', 'intbe', 'uintle', 'intle', 'uintne', 'intne']
 ROUTES6 = ['kw_len', 'kw_name', 'setattr', 'setattr_plain', 'token', 'build', 'pack', 'array', 'array_slice']
@@ -64,13 +66,16 @@ def gen_cases(rng, tier):
     # assignments to an existing Array (dtype property with every kind of unusable format, read-only properties, items / slices / append / insert / extend
     # with values that do not fit, failing in-place operators, ...): refused ones leave every observable as it was, accepted ones have exactly the requested size
     yield from gen_array_set(rng, tier)
+    # the values come from another container: an Array with another scale / name / item length, a slice of an Array, a tuple, a generator, an array.array ...
+    # (slice assignment, extend, constructor, astype, item assignment, append, insert): values that do not fit the TARGET are refused and nothing changes
+    yield from gen_array_src(rng, tier)
     # offset / length windows beyond the supplied bytes, bytearray, bitarray, BytesIO, file name or file handle (cases, runner and oracle of C17)
     import random as _random
     from props import c17
     for c in c17.gen_cases(_random.Random(rng.randrange(1 << 30)), tier):
         if c['op'] == 'window': yield c
 
-def kind(c): return c['op'] + ':' + c.get('route', c.get('via', ''))
+def kind(c): return c['op'] + ':' + (c.get('route', c.get('via', '')) if c['op'] != 'array_src' else c['act']['a'] + '/' + c['skind'])
 
 def run_impl(c):
     import bitstring
@@ -81,6 +86,7 @@ def run_impl(c):
         return c17.run_impl(c)
     if op == 'bufwindow': return run_bufwindow(c)
     if op == 'array_set': return run_array_set(c)
+    if op == 'array_src': return run_array_src(c)
     if op == 'e8m0':
         x = float.fromhex(c['f']); r = c['route']
         def f():
@@ -219,6 +225,7 @@ def oracle(c, obs):
         return c17.oracle(c, obs)
     if op == 'bufwindow': return oracle_bufwindow(c, obs)
     if op == 'array_set': return oracle_array_set(c, obs)
+    if op == 'array_src': return oracle_array_src(c, obs)
     if op == 'e8m0':
         import math
         x = float.fromhex(c['f'])
@@ -280,12 +287,12 @@ def oracle(c, obs):
         return None
 
 def nontrivial(c, obs):
-    if c['op'] == 'array_set': return obs[0] == 'ok' and obs[1]['r'][0] == 'err'
+    if c['op'] in ('array_set', 'array_src'): return obs[0] == 'ok' and obs[1]['r'][0] == 'err'
     return obs[0] == 'err' or (isinstance(obs[1], list) and obs[1][0] == 'raised')
 def classify(c, obs): return None
 
 def coq_check(c, obs):
-    if c['op'] in ('bufwindow', 'array_set'): return None          # buffer objects and Array objects are outside the store model: the Python oracle decides
+    if c['op'] in ('bufwindow', 'array_set', 'array_src'): return None          # buffer objects and Array objects are outside the store model: the Python oracle decides
     if c['op'] == 'window':
         from props import c17
         return c17.coq_check(c, obs)
@@ -763,6 +770,208 @@ def oracle_array_set(c, obs):
         if max(0, n + act['dn']) != n or not numeric: return unchanged('Arrays of different lengths or of types that are not numbers cannot be combined', ('ValueError', 'TypeError'))
         if r[0] == 'err': return unchanged('the operator failed', ())
         return None
+
+# ------------------------------------------------------------------------------------------------------------------------------------------
+# op 'array_src': the values given to an Array come from another CONTAINER - an Array of the same name and item length with another scale (one scaled and
+# one not, both scaled differently, the same scale), an Array of another name or item length, a slice of a longer Array, a list / tuple / generator /
+# iterator / array.array - through slice assignment (contiguous and extended), extend, the constructor, astype, and one by one through item assignment,
+# append and insert. The items of a container are its VALUES (what iterating it gives): a target with scale t stores the value v as v / t, so a value is
+# refused when v / t is outside the range of the item, and then nothing changes; a value that fits is stored exactly. The model works on exact
+# fractions: a source item holding the integer p under scale s is the value p * s, the target has to store q = p * s / t (the generator only uses
+# whole q), the slot is the two's complement / IEEE encoding of q written as a str of '0'/'1'.
+# ------------------------------------------------------------------------------------------------------------------------------------------
+AS_INT = [('uint', 8), ('uint', 8), ('int', 8), ('uint', 5), ('int', 7), ('uint', 12), ('uint', 3), ('int', 16), ('uint', 16), ('uint', 24), ('int', 32), ('uint', 32),
+          ('uintbe', 16), ('intle', 16), ('uintle', 24), ('intne', 32), ('uintne', 8), ('intbe', 8)]
+AS_FLOAT = [('float', 16), ('float', 32), ('float', 64), ('floatle', 32), ('floatle', 16), ('floatne', 64), ('floatbe', 32)]
+AS_SCALES = [None, None, None, 1, 2, 4, 0.5, 3, -1, 8, 0.25, 16, -2, 2.0, 1.0, 10]
+AS_FSCALES = [None, None, 1, 2, 4, 0.5, 0.25, 8, 16, -1, -2, 2.0]
+AS_FVALS = [0.0, 1.0, -1.5, 0.25, 2.0, 3.0, -0.5, 100.0, 7.5, -4.0]
+AS_CODES = {'b': ('int', 8), 'B': ('uint', 8), 'h': ('int', 16), 'H': ('uint', 16), 'i': ('int', 32), 'I': ('uint', 32), 'q': ('int', 64), 'Q': ('uint', 64)}
+
+def as_range(name, w):
+    return (-(1 << (w - 1)), (1 << (w - 1)) - 1) if name.startswith('int') else (0, (1 << w) - 1)
+
+def as_enc(name, w, q):
+    import struct
+    le = name.endswith('le') or (name.endswith('ne') and sys.byteorder == 'little')
+    if name.startswith('float'): return ''.join(format(x, '08b') for x in struct.pack(('<' if le else '>') + {16: 'e', 32: 'f', 64: 'd'}[w], q))
+    be = format(q & ((1 << w) - 1), f'0{w}b')
+    return ''.join(be[i:i + 8] for i in range(w - 8, -1, -8)) if le else be
+
+def as_value(p, scale): return p if scale is None else p * scale
+
+def gen_array_src(rng, tier):
+    from fractions import Fraction
+    N = 320 if tier == 'quick' else 8000
+    for _ in range(N):
+        isf = rng.random() < 0.12
+        tname, tw = rng.choice(AS_FLOAT if isf else AS_INT)
+        scales = AS_FSCALES if isf else AS_SCALES
+        ts = rng.choice(scales)
+        a = rng.choice(['setslice'] * 4 + ['extslice', 'extslice', 'extend', 'extend', 'ctor', 'ctor', 'astype', 'setitem', 'append', 'insert'])
+        skind = rng.choice(['array'] * 7 + ['array_slice', 'array_slice', 'array_name', 'array_len', 'list', 'tuple', 'gen', 'iter', 'pyarray'])
+        if a == 'astype' and not skind.startswith('array'): skind = 'array'
+        sname, sw = tname, tw
+        ss = rng.choice(scales) if rng.random() < 0.85 else ts
+        code = None
+        if skind == 'array_name' and not isf:
+            sname = {'uint': 'int', 'int': 'uint', 'uintbe': 'uintle', 'intle': 'intbe', 'uintle': 'uintbe', 'intne': 'uintne', 'uintne': 'intne', 'intbe': 'uintbe'}[tname]
+        elif skind == 'array_len':
+            sw = rng.choice([x for x in ([16, 32, 64] if isf else [8, 16, 24, 32, 40] if tname not in ('uint', 'int') else [tw + 1, tw - 1, tw + 8, 2 * tw, 8, 16]) if x != tw and x > 1])
+        elif skind == 'pyarray':
+            if isf: code = rng.choice('fd'); sname, sw = 'float', {'f': 32, 'd': 64}[code]
+            else: code = rng.choice('bBhHiIqQ'); sname, sw = AS_CODES[code]
+            ss = None
+        elif skind in ('list', 'tuple', 'gen', 'iter') and not isf:
+            sname, sw = rng.choice(['int', tname if tname in ('uint', 'int') else 'int']), tw + 9          # any Python int may turn up in a list
+        n = 0 if a in ('ctor', 'astype') else rng.choice([0, 1, 2, 3, 4, 5])
+        if a == 'setitem' and n == 0: a = 'append'
+        tlo, thi = as_range(tname, tw)
+        if isf:
+            titems = [rng.choice(AS_FVALS) for _ in range(n)]
+            draw = lambda: rng.choice(AS_FVALS)
+        else:
+            titems = [rng.choice([tlo, thi, 0, 1, rng.randrange(tlo, thi + 1)]) for _ in range(n)]
+            slo, shi = as_range(sname, sw)
+            ratio = Fraction(1 if ss is None else ss) / Fraction(1 if ts is None else ts); d = ratio.denominator
+            cands = [slo, shi, slo + 1, shi - 1, 0, 1, -1, 2, rng.randrange(slo, shi + 1), rng.randrange(slo, shi + 1)]
+            for qb in (tlo - 1, tlo, thi, thi + 1, tlo + 1, thi - 1, thi + 1, tlo - 1, 2 * thi + 5):          # the limits of the target, seen from the source
+                p = Fraction(qb) / ratio
+                if p.denominator == 1 and slo <= p <= shi: cands += [int(p)] * 2
+            if skind in ('list', 'tuple', 'gen', 'iter') and rng.random() < 0.1: cands += [1 << (tw + 70), -(1 << (tw + 40))]
+            def draw():
+                p = rng.choice(cands); p -= p % d
+                if p < slo and abs(p) < (1 << 64): p += d
+                return p if (slo <= p <= shi or abs(p) >= (1 << 64)) else 0
+        act = {'a': a}
+        idx = lambda: rng.choice([0, -1, n - 1, n, -n, rng.randrange(-n - 1, n + 2)])
+        if a == 'setslice':
+            act['key'] = [rng.choice([None, idx()]), rng.choice([None, idx()]), rng.choice([None, 1])]; m = rng.choice([0, 1, 1, 2, 3, 4])
+        elif a == 'extslice':
+            act['key'] = [rng.choice([None, idx()]), rng.choice([None, idx()]), rng.choice([2, -1, -2, 3])]
+            m = len(range(*slice(*act['key']).indices(n))); m = rng.choice([m, m, m, m, m + 1, max(m - 1, 0)])
+        elif a in ('extend', 'ctor', 'astype'): m = rng.choice([0, 1, 1, 2, 3, 4])
+        else:
+            m = rng.choice([1, 1, 2])
+            if a == 'setitem': act['i'] = rng.randrange(-n, n)
+            if a == 'insert': act['i'] = idx()
+        c = {'op': 'array_src', 'cls': 'Bits', 't': [tname, tw, ts], 'tform': rng.choice(['str', 'obj'] if ts is None else ['obj', 'obj', 'dtype_set']), 'titems': titems, 's': [sname, sw, ss], 'skind': skind,
+             'sitems': [draw() for _ in range(m)], 'act': act}
+        if skind == 'array_slice': c['spad'] = [rng.choice([0, 1, 2]), rng.choice([0, 1, 3])]
+        if code: c['code'] = code
+        yield c
+
+def run_array_src(c):
+    import array
+    from bitstring import Array, Dtype, BitArray
+    tname, tw, ts = c['t']; sname, sw, ss = c['s']; act = c['act']; k = act['a']; kind_ = c['skind']
+    def tdtype(): return f'{tname}{tw}' if c['tform'] == 'str' else Dtype(tname, tw, scale=ts)
+    def fresh():
+        if c['tform'] == 'dtype_set':          # an unscaled Array holding the stored items, given the scaled dtype afterwards
+            a = Array(f'{tname}{tw}', list(c['titems'])); a.dtype = Dtype(tname, tw, scale=ts); return a
+        return Array(tdtype(), [as_value(t, ts) for t in c['titems']])
+    vals = [as_value(p, ss) for p in c['sitems']]
+    def source():
+        if kind_.startswith('array'):
+            lead, trail = c.get('spad', [0, 0])
+            s = Array(Dtype(sname, sw, scale=ss))
+            s.data = BitArray(bin=''.join(as_enc(sname, sw, p) for p in [0] * lead + c['sitems'] + [0] * trail))          # the stored items, written directly
+            return s[lead:lead + len(c['sitems'])] if lead or trail else s
+        if kind_ == 'list': return list(vals)
+        if kind_ == 'tuple': return tuple(vals)
+        if kind_ == 'gen': return (v for v in vals)
+        if kind_ == 'iter': return iter(vals)
+        if kind_ == 'pyarray': return array.array(c['code'], c['sitems'])
+    def scalar(src): return next(iter(src)) if kind_ in ('gen', 'iter') else src[0]
+    def f():
+        a = fresh(); src = source()
+        out = {'before': arr_probe(a)}
+        if isinstance(src, Array): out['src'] = [arr_canon(src.tolist()), src.data.bin]
+        def apply():
+            if k in ('setslice', 'extslice'): a[slice(*act['key'])] = src; return None
+            if k == 'extend': return a.extend(src)
+            if k == 'setitem': a[act['i']] = scalar(src); return None
+            if k == 'append': return a.append(scalar(src))
+            if k == 'insert': return a.insert(act['i'], scalar(src))
+            if k == 'ctor': return arr_probe(Array(tdtype(), src))
+            if k == 'astype': return arr_probe(src.astype(tdtype()))
+        out['r'] = list(attempt(apply))
+        out['after'] = arr_probe(a)
+        if isinstance(src, Array): out['src_after'] = src.data.bin
+        return out
+    return attempt(f)
+
+def oracle_array_src(c, obs):
+    from fractions import Fraction
+    tname, tw, ts = c['t']; sname, sw, ss = c['s']; act = c['act']; a = act['a']; kind_ = c['skind']
+    isf = tname.startswith('float')
+    V = [as_value(p, ss) for p in c['sitems']]
+    what = (f"Array({tname}{tw}, scale={ts}) holding {[as_value(t, ts) for t in c['titems']]}: {act} from <{kind_}>"
+            + (f" Array({sname}{sw}, scale={ss})" if kind_.startswith('array') else f" array.array({c['code']!r})" if kind_ == 'pyarray' else '') + f" with the values {str(V)[:120]}")
+    if obs[0] != 'ok': return f"{what}: the Arrays could not be built or observed: {obs}"
+    o = obs[1]; r = o['r']; before, after = o['before'], o['after']
+    B, A = dict((l, v) for l, v in before), dict((l, v) for l, v in after)
+    n = len(c['titems']); tslots = [as_enc(tname, tw, t) for t in c['titems']]
+    num = lambda x: float.fromhex(x[1]) if isinstance(x, list) else x
+    if B['data'] != ''.join(tslots) or B['len'] != n or B['itemsize'] != tw:
+        return f"{what}: the Array built from these values holds {B['data']!r} ({B['len']} items of {B['itemsize']} bits); the stored items must be {c['titems']}, i.e. {''.join(tslots)!r}"
+    if 'src' in o:
+        got = [num(x) for x in o['src'][0]] if isinstance(o['src'][0], list) else o['src'][0]
+        if got != V: return f"{what}: the source Array holds the stored items {c['sitems']} under scale {ss}, its values are {V}; tolist() gives {str(got)[:120]}"
+        if o['src_after'] != o['src'][1]: return f"{what}: the SOURCE Array changed: {o['src'][1]!r} -> {o['src_after']!r}"
+    tlo, thi = as_range(tname, tw)
+    tsf = Fraction(1 if ts is None else ts)
+    qs = [Fraction(v) / tsf for v in V]
+    if isf:          # IEEE division (exact here: the scales are powers of two), which also says which zero v / t is
+        qs = [float(v) / (1 if ts is None else ts) for v in V]; fits = [True] * len(qs); enc = [as_enc(tname, tw, q) for q in qs]
+    else:
+        if any(q.denominator != 1 for q in qs): return None          # (not generated: what happens to a fractional quotient is not documented)
+        fits = [tlo <= q <= thi for q in qs]; enc = [as_enc(tname, tw, int(q)) if f else None for q, f in zip(qs, fits)]
+    allfit = all(fits)
+    bad = next((f"{V[j]} (stored as {V[j]} / {ts} = {qs[j]}, outside {tlo}..{thi})" if ts is not None else f"{V[j]} (outside {tlo}..{thi})" for j, f in enumerate(fits) if not f), None)
+    arraylike = kind_.startswith('array') or kind_ == 'pyarray'
+    same = kind_.startswith('array') and (sname, sw) == (tname, tw) and ss == ts
+    def unchanged(why, classes=('ValueError',)):
+        if r[0] != 'err': return f"{what}: {why}, must be refused; it was accepted and the Array now holds {A['tolist']} (data {A['data']!r})" if a not in ('ctor', 'astype') else f"{what}: {why}, must be refused; an Array was created: {str(r[1])[:300]}"
+        if r[1] not in classes: return f"{what}: {why}, must raise {' / '.join(classes)}; raised {r[1]}"
+        if after != before:
+            diff = [(l, B[l], A[l]) for l, _ in before if B[l] != A[l]]
+            return f"{what}: {why}; refused ({r[1]}) but the Array changed: " + '; '.join(f"{l}: {str(x)[:60]} -> {str(y)[:60]}" for l, x, y in diff[:6])
+        return None
+    def data_is(new_slots, why):
+        if r[0] != 'ok': return f"{what}: {why}, every value fits and must be stored; raised {r[1]}"
+        P = A if a not in ('ctor', 'astype') else dict((l, v) for l, v in r[1])
+        exp = ''.join(new_slots)
+        if P['data'] != exp or P['len'] != len(new_slots) or P['itemsize'] != tw or P['trailing_bits'] != '':
+            return (f"{what}: {why}: the items are the values, so the data must be {exp!r} ({len(new_slots)} items of {tw} bits); it is {P['data']!r} ({P['len']} items of {P['itemsize']} bits, "
+                    f"trailing {P['trailing_bits']!r}), read back as {str(P['tolist'])[:120]}")
+        if a not in ('ctor', 'astype') and (A['dtype'] != B['dtype'] or A['dtype.scale'] != B['dtype.scale']): return f"{what}: {why}: the dtype changed from {B['dtype']} to {A['dtype']}"
+        return None
+    if a in ('setslice', 'extslice'):
+        key = act['key']; positions = range(*slice(*key).indices(n)); step = slice(*key).indices(n)[2]
+        if step != 1 and len(V) != len(positions): return unchanged(f'an extended slice of {len(positions)} positions is given {len(V)} values')
+        if not allfit: return unchanged(f'the value {bad} does not fit')
+        model = list(tslots); model[slice(*key)] = enc
+        return data_is(model, 'slice assignment')
+    if a in ('extend', 'ctor', 'astype'):
+        base = tslots if a == 'extend' else []
+        if r[0] == 'ok':
+            if not allfit: return unchanged(f'the value {bad} does not fit')
+            return data_is(base + enc, a)
+        if a == 'extend' and after != before and not allfit:
+            # like list.extend with a failing iterator: the values before the first refused one may have been appended, nothing else
+            j = fits.index(False)
+            if r[1] == 'ValueError' and n <= A['len'] <= n + j and A['data'] == B['data'] + ''.join(enc[:A['len'] - n]) and A['dtype'] == B['dtype'] and A['itemsize'] == tw: return None
+        if arraylike and not same and a != 'astype':          # "the iterable can be another Array or an array.array, but only if the dtype is the same": refusing is documented, reinterpreting is not
+            return unchanged('an Array / array.array of another dtype' + ('' if allfit else f', and the value {bad} does not fit'), ('TypeError', 'ValueError'))
+        if allfit: return data_is(base + enc, a)
+        return unchanged(f'the value {bad} does not fit')
+    if not fits[0]: return unchanged(f'the value {bad} does not fit')
+    if a == 'setitem': model = list(tslots); model[act['i']] = enc[0]
+    elif a == 'append': model = tslots + [enc[0]]
+    else:
+        i = act['i']; pos = (max(i + n, 0) if i < 0 else min(i, n)); model = tslots[:pos] + [enc[0]] + tslots[pos:]
+    return data_is(model, a)
 
 def search(seeds, rng):
     for c in list(seeds) + list(gen_cases(rng, 'quick')):
